@@ -420,11 +420,13 @@ C07 += [
     _sy("synth_process_indexes_loops.l%d" % l, entry="hp_synth_process_indexes_loops", unwind=14, cost=40, defs={"SYNTH_DIGITS": None, "SYNTH_ANYVALUE": None, "IDX_LOOPS": l, "IDX_TOTAL": 4}, extra_cbmc=_FS, timeout=900,
         note="hwloc_synthetic_process_indexes on the interleaving text of %d loops 'x*y:...' where every number stands for ANY value (number parser: exact end position, arbitrary value), any total <= 4: memory safe, no failed assertion, no division by zero, accepted interleavings yield in-range indexes" % l)
     for l in (1, 2, 3)
-] + [
+]
+PROPS["C07"] = C07
+# work in progress, NOT registered (thorough run of 2026-09-29: canary not reachable with unwind 13 -- the bound is too small somewhere): ./check C07WIP
+PROPS["C07WIP"] = [
     _sy("synth_process_indexes", unwind=13, cost=300, tiers=("thorough",), ttimeout=3600, defs={"SLEN": 5, "IDX_TOTAL": 4}, timeout=900,
         note="hwloc_synthetic_process_indexes on an arbitrary indexes text of <= 5 bytes for a level of <= 4 objects below <= 3 levels of arbitrary widths: memory safe, no failed assertion, an accepted list has `total` entries; strtoul/strtol contract stubs (any value, end anywhere)"),
 ]
-PROPS["C07"] = C07
 
 
 # ------------------------------------------------------------------ C12 dup: leaves only
